@@ -744,7 +744,7 @@ class World:
             else:
                 f = make_objective(d["obj"], self.box, self.maximize, shift)
             self.pure.append(make_objective(d["obj"], self.box, self.maximize, shift))
-            p = FunctionProblem(Recorder(f, i, self.log), bounds=self.box.copy(), maximize=self.maximize)
+            p = FunctionProblem(Recorder(f, i, self.log), bounds=self.box.copy(), maximize=self.maximize, **({"use_cache": True} if d.get("use_cache") else {}))
             cut = None
             if d["cutoff"] is not None:
                 c = d["cutoff"][i] if isinstance(d["cutoff"], (list, tuple)) else d["cutoff"]
